@@ -81,7 +81,15 @@ Check == idx > 0 =>
       \* call returns and a returned error formats
       caseH(h) == [p |-> Prop, kind |-> "search", doc |-> JInt(1), carriers |-> <<Hostile[h]>>,
                    multi |-> { [expr |-> Render(ts), adm |-> {Open}] : ts \in calls }]
-  IN /\ (Emit /\ Prop = "C03") => \A h \in 1..Len(Hostile) : PrintT("CASE " \o ToJson(caseH(h)))
+      \* applicative order: every argument is evaluated before the function is applied, so a failing
+      \* argument fails the call whatever the other arguments are (the position of @ holds the failure)
+      Subst(ts, ff) == LET RECURSIVE Go(_) Go(i) == IF i > Len(ts) THEN <<>> ELSE (IF ts[i] = CurT THEN ff ELSE <<ts[i]>>) \o Go(i + 1) IN Go(1)
+      failing == { <<Id(<<97,98,115>>), LP, Raw(<<39,120,39>>), RP>>, <<VarT(<<36,117,110,100,101,102>>)>>, <<LP, Json(<<96,49,96>>), DivT, Json(<<96,48,96>>), RP>> }
+      caseF == [p |-> Prop, kind |-> "search", doc |-> JInt(1),
+                multi |-> { [expr |-> Render(Subst(c, ff)), adm |-> Admissible(Subst(c, ff), JInt(1))] : c \in calls, ff \in failing }]
+  IN /\ Emit => PrintT("CASE " \o ToJson(caseF))
+     /\ Named(\A c \in calls : \A o \in Admissible(Subst(c, <<VarT(<<36,117,110,100,101,102>>)>>), JInt(1)) : IsAny(o) \/ IsErr(o), "AFailingArgumentFailsTheCall")
+     /\ (Emit /\ Prop = "C03") => \A h \in 1..Len(Hostile) : PrintT("CASE " \o ToJson(caseH(h)))
      /\ Emit => PrintT("CASE " \o ToJson(caseA))
      /\ Emit => \A k \in 1..Len(some) : PrintT("CASE " \o ToJson(caseB(k)))
      /\ Named(Len(elems) >= 2, "SeveralElements")
